@@ -74,7 +74,9 @@ def get_widths(seq: Iterable[object]) -> Dict[Union[str, int], float]:
             if len(r) == 3:
                 (char1, char2, w) = r
                 if isinstance(char1, int) and isinstance(char2, int):
-                    for i in range(cast(int, char1), cast(int, char2) + 1):
+                    # CIDs are 16-bit numbers: a damaged range is cut to them
+                    # (expanding it as written may never end)
+                    for i in range(max(char1, 0), min(char2, 0xFFFF) + 1):
                         widths[i] = w
                 else:
                     log.warning(
